@@ -456,6 +456,13 @@ func Run(j *job.Job, s *job.Sink) {
 			ops = append(ops, op{"goodreadaug", "zzmain.yang", "module zzmain {\n  namespace \"urn:zzmain\";\n  prefix zm;\n  import zzext { prefix ze; }\n  leaf l { type ze:percent; }\n}\n"}, op{Kind: "process"}, op{Kind: "process"}, op{Kind: "read"})
 			s.Count("histories_with_fetched_modules_that_augment", 1)
 		}
+		// One history in twelve reads a module whose import is fetched from a file that holds
+		// two modules; the second one has an import of its own, which lies next to it. The run
+		// that fetches the file links both, so a second run changes nothing.
+		if r.Intn(12) == 0 {
+			ops = append(ops, op{"goodreadtwo", "zztwomain.yang", "module zztwomain {\n  namespace \"urn:zztwomain\";\n  prefix zt;\n  import zzpair { prefix zp; }\n  leaf l { type zp:t; }\n}\n"}, op{Kind: "process"}, op{Kind: "process"}, op{Kind: "read"})
+			s.Count("histories_with_a_fetched_file_that_holds_two_modules", 1)
+		}
 		if r.Intn(8) == 0 {
 			needs := op{"load", "zzneeds.yang", "module zzneeds {\n  namespace \"urn:zzneeds\";\n  prefix zn;\n  import zzlate { prefix zl; }\n  leaf l { type zl:t; }\n  identity mine { base zl:zlid; }\n}\n"}
 			other := op{"goodread", "zzother.yang", "module zzother {\n  namespace \"urn:zzother\";\n  prefix zo;\n  leaf o { type string; }\n}\n"}
@@ -575,6 +582,21 @@ func Run(j *job.Job, s *job.Sink) {
 					os.WriteFile(filepath.Join(dir, o.Name), []byte(o.Text), 0o644)
 					os.WriteFile(filepath.Join(dir, "zzext.yang"), []byte("module zzext {\n  namespace \"urn:zzext\";\n  prefix ze;\n  import zzbase { prefix zb; }\n  typedef percent { type uint8 { range \"0..100\"; } }\n  augment \"/zb:c\" {\n    leaf load { type percent; }\n    choice how { leaf quick { type empty; } }\n  }\n}\n"), 0o644)
 					os.WriteFile(filepath.Join(dir, "zzbase.yang"), []byte("module zzbase {\n  namespace \"urn:zzbase\";\n  prefix zb;\n  container c { leaf own { type string; } }\n}\n"), 0o644)
+					defer os.RemoveAll(dir)
+					if err := ms.Read(filepath.Join(dir, o.Name)); err != nil {
+						bad("good-text-rejected", err.Error(), nil)
+						return
+					}
+					good = append(good, op{Kind: "goodread", Name: filepath.Join(dir, o.Name)})
+					lastClean, lastLive = false, ""
+				case "goodreadtwo":
+					dir, err := os.MkdirTemp(".", "goodreadtwo")
+					if err != nil {
+						continue
+					}
+					os.WriteFile(filepath.Join(dir, o.Name), []byte(o.Text), 0o644)
+					os.WriteFile(filepath.Join(dir, "zzpair.yang"), []byte("module zzpair {\n  namespace \"urn:zzpair\";\n  prefix zp;\n  typedef t { type int8; }\n}\nmodule zzpairb {\n  namespace \"urn:zzpairb\";\n  prefix zpb;\n  import zzw { prefix w; }\n  leaf x { type w:wt; }\n}\n"), 0o644)
+					os.WriteFile(filepath.Join(dir, "zzw.yang"), []byte("module zzw {\n  namespace \"urn:zzw\";\n  prefix zw;\n  typedef wt { type uint32; }\n}\n"), 0o644)
 					defer os.RemoveAll(dir)
 					if err := ms.Read(filepath.Join(dir, o.Name)); err != nil {
 						bad("good-text-rejected", err.Error(), nil)
